@@ -187,7 +187,7 @@ theorem oi_canon : ∀ (x : Expr), OnlyInternal (canon x)
     · exact onlyInternal_pure _
     · split
       · exact onlyInternal_pure _
-      · exact oi_truediv _ _
+      · exact onlyInternal_bind (oi_truediv _ _) fun _ _ => onlyInternal_pure _
   | .one => by simp [canon]; exact onlyInternal_ok _
   | .zero => by simp [canon]; exact onlyInternal_ok _
   | .q _ _ => by simp [canon]; exact onlyInternal_error _
